@@ -5,9 +5,11 @@ CONSTANTS
   Drawings = 1
   Kinds = {"tri"}
   MutSeq <- MutDraw
-  Modes = {"any", "inside", "around", "apart", "same"}
+  ModeSeq <- ModeAll
   MaxSegs = 26
   Styles = {"long", "short", "mixed", "mid"}
+  RolePats <- TwoRolePats
   Theorems = FALSE
+  Tiles = FALSE
 INVARIANTS WaysWellFormed SegBagConserved VerdictIsOfTheWays
 CHECK_DEADLOCK FALSE
